@@ -1,8 +1,38 @@
 """C01 Password verdict tracks the last acknowledged write."""
-import storefam
+import storefam, fsfam
+import agentfam as af
+
 
 def run(ctx):
-    seeds = [ctx.seed] if ctx.tier == "quick" else [ctx.seed, ctx.seed + 1, ctx.seed + 2, ctx.seed + 3]
-    storefam.run_family(ctx, seeds=seeds)
+    thorough = ctx.tier == "thorough"
+    seeds = [ctx.seed] if not thorough else [ctx.seed, ctx.seed + 1, ctx.seed + 2, ctx.seed + 3]
+    # library level: every edge of the bounded Store model + password-length boundary sweep
+    storefam.run_family(ctx, seeds=seeds, sweep=True)
+    # histories with failed operations caused by I/O errors: a failed add/update must not change what
+    # authenticates, exists or is listed (one real run per failing system call of the write protocol)
+    drv = fsfam.Driver(ctx)
+    cases = [c for c in fsfam.standard_cases(False) if c.op in ("add", "update", "init", "setadmin")]
+    bl = fsfam.baselines(ctx, drv, cases)
+    n, jobs, _ = fsfam.fault_runs(ctx, drv, bl, errnos=("ENOSPC",) if not thorough else ("ENOSPC", "EMFILE"),
+                                  as_prop="C01")
+    ctx.coverage["fault_histories"] = n
+    # agent level: the same verdict after concurrent histories (linearized by the dispatcher), including the
+    # stale-upgrade interleaving; any rejected trace here means a verdict that does not follow the last write
+    scs = []
+    cex, res = af.tlc_cex(ctx, "MC_Agent_bad_norecheck.cfg", "bad_norecheck")
+    if cex:
+        scs.append(af.scenario_from_cex(cex, "cex-stale-upgrade", "local"))
+    sims = af.simulated_scenarios(ctx, 16 if not thorough else 150)
+    for i, sc in enumerate(sims):
+        if i % 2:
+            af.with_frontends(sc, ctx.seed * 17 + i)
+    scs += sims
+    results, events = af.run_scenarios(ctx, scs, "c01")
+    before = len(ctx.violations)
+    nval = af.judge(ctx, scs, results, events, "c01", "C01")
+    for v in ctx.violations[before:]:          # a broken history is a C01 matter whatever else it is
+        if v["prop"] in ("C11", "C12"):
+            ctx.violation("C01", "agent-history:" + v["key"], v["detail"])
+    ctx.coverage["traces_validated_against_impl"] += nval
     ctx.assumptions += ["pi (projection) and the independent digest recomputation in harness/go/concrete are trusted",
                         "bounded model: 2 users, 3 passwords (two key-equivalent under scrypt), 2 parameter sets"]
